@@ -28,6 +28,9 @@ def run_extra(ck: Check, repo: Repo) -> None:
     _added_3d_kernel(ck, repo)
     _width_formulas(ck, repo)
     _forwarded_follow_replacement(ck, repo)
+    _optional_args_by_identity(ck, repo)
+    _constructor_forwarding(ck, repo)
+    _head_names(ck, repo)
 
 
 # ------------------------------------------------------------------------------------------------ C03.10
@@ -199,3 +202,155 @@ def _forwarded_follow_replacement(ck: Check, repo: Repo) -> None:
                  "discarded encoder — QNetwork(Box(4), Discrete(3), latent_dim=16): add_latent_node(); getattr(q, 'encoder.add_node')() leaves hidden_size [16, 48] with "
                  "weights of the old shape and last_mutation_attr None; q.clone() then computes different outputs (0.108 in the probe)",
           construct="EvolvableModule.__setattr__: re-installation of forwarded wrappers")
+
+
+# ------------------------------------------------------------------------------------------------ C03.14
+def _aliases(fn: Fn, params: Set[str]) -> Dict[str, str]:
+    """local -> parameter, for locals whose every definition is `local = <parameter>` (what the front end produces when it inlines a helper
+    that re-binds its own parameter, and what a developer writes as `layer = hidden_layer`)."""
+    defs: Dict[str, List[ast.AST]] = {}
+    for x in walk_no_nested(fn.node):
+        if isinstance(x, ast.Assign) and len(x.targets) == 1 and isinstance(x.targets[0], ast.Name):
+            defs.setdefault(x.targets[0].id, []).append(x.value)
+        elif isinstance(x, (ast.AugAssign, ast.AnnAssign)) and isinstance(x.target, ast.Name):
+            defs.setdefault(x.target.id, []).append(None)
+        elif isinstance(x, (ast.For, ast.comprehension)):
+            for n in ast.walk(x.target):
+                if isinstance(n, ast.Name):
+                    defs.setdefault(n.id, []).append(None)
+    out: Dict[str, str] = {}
+    for name, vals in defs.items():
+        if name in params:
+            continue
+        # first definition is the parameter itself; later re-bindings (the resolved value) end the alias only for uses after them — the truth
+        # test that matters is the one applied to the value as passed, so an alias is a local whose FIRST definition is the bare parameter
+        if vals and isinstance(vals[0], ast.Name) and vals[0].id in params:
+            out[name] = vals[0].id
+    return out
+
+
+def _truth_tests(fn: Fn, names: Dict[str, str]) -> List[Tuple[ast.AST, str]]:
+    """(node, parameter) for every use of one of the names as a truth value: `if p`, `if not p`, `p or d`, `p and x`, `x if p else y`, `while p`."""
+    hits: List[Tuple[ast.AST, str]] = []
+
+    def direct(e: ast.AST) -> Optional[str]:
+        while isinstance(e, ast.UnaryOp) and isinstance(e.op, ast.Not):
+            e = e.operand
+        return names.get(e.id) if isinstance(e, ast.Name) else None
+
+    for x in walk_no_nested(fn.node):
+        tests: List[ast.AST] = []
+        if isinstance(x, (ast.If, ast.While, ast.IfExp)):
+            tests.append(x.test)
+        elif isinstance(x, ast.Assert):
+            tests.append(x.test)
+        elif isinstance(x, ast.BoolOp):
+            tests.extend(x.values[:-1] if isinstance(x.op, ast.Or) else x.values)
+        for t in tests:
+            for d in ([t] + (list(t.values) if isinstance(t, ast.BoolOp) else [])):
+                p = direct(d)
+                if p is not None:
+                    hits.append((d, p))
+    return hits
+
+
+def _optional_args_by_identity(ck: Check, repo: Repo) -> None:
+    ck.rule("C03.14", "an advertised mutation does what its arguments say: an optional numeric argument (layer index, number of nodes / channels) that defaults to None "
+                      "is recognised as absent by `is None` only — a truth test would treat the legal value 0 (the first layer) as 'not given' and re-draw it, "
+                      "so a mutation replayed on a critic with the policy's recorded arguments lands on another layer")
+    from .c03 import mutation_methods
+    n_params = 0
+    for mod in repo.mods.values():
+        if not mod.name.startswith("agilerl.modules") and not mod.name.startswith("agilerl.networks") and mod.name != "agilerl.wrappers.make_evolvable":
+            continue
+        for cls in mod.classes.values():
+            for fn, _kind, _ in mutation_methods(cls):
+                a = fn.node.args
+                pos = a.args[-len(a.defaults):] if a.defaults else []
+                opt = {p.arg for p, d in zip(pos, a.defaults) if isinstance(d, ast.Constant) and d.value is None}
+                opt |= {p.arg for p, d in zip(a.kwonlyargs, a.kw_defaults) if isinstance(d, ast.Constant) and d.value is None}
+                # numeric ones: annotated Optional[int] / Optional[float] / int | None, or unannotated
+                def numeric(arg: ast.arg) -> bool:
+                    t = ast.unparse(arg.annotation) if arg.annotation is not None else ""
+                    return t == "" or any(k in t for k in ("int", "float", "Number"))
+                opt = {p.arg for p in list(a.args) + list(a.kwonlyargs) if p.arg in opt and numeric(p)}
+                if not opt:
+                    continue
+                n_params += len(opt)
+                names = {p: p for p in opt}
+                names.update(_aliases(fn, opt))
+                hits = _truth_tests(fn, names)
+                seen: Set[str] = set()
+                for node, p in hits:
+                    if p in seen:
+                        continue
+                    seen.add(p)
+                    ck.ob("C03.14", fn, node, False, f"{fn.qualname}: the optional argument `{p}` is tested against None, not by its truth value",
+                          detail=f"`{short(node, 60)}` is also false for {p}=0", construct=f"{fn.qualname}: presence test of `{p}`")
+                for p in sorted(opt - seen):
+                    ck.ob("C03.14", fn, fn.node, True, f"{fn.qualname}: the optional argument `{p}` is tested against None, not by its truth value",
+                          construct=f"{fn.qualname}: presence test of `{p}`")
+    ck.floor("C03.14", n_params, 20, "optional numeric arguments of advertised mutation methods")
+
+
+# ------------------------------------------------------------------------------------------------ C03.15
+def _init_params(fn: Fn) -> List[str]:
+    a = fn.node.args
+    return [x.arg for x in a.args[1:]] + [x.arg for x in a.kwonlyargs]
+
+
+def _constructor_forwarding(ck: Check, repo: Repo) -> None:
+    ck.rule("C03.15", "declared bounds reach the class that enforces them: a constructor parameter that the base-class constructor also takes (min / max sizes, "
+                      "latent width bounds, device, ...) is forwarded in the super().__init__ call — otherwise the base class silently applies its own default "
+                      "and the network mutates outside the range it was declared with")
+    n = 0
+    for mod in repo.mods.values():
+        if not (mod.name.startswith("agilerl.modules") or mod.name.startswith("agilerl.networks")):
+            continue
+        for cls in mod.classes.values():
+            init = cls.methods.get("__init__")
+            if init is None:
+                continue
+            sup = [c for c in calls_in(init.node) if isinstance(c.func, ast.Attribute) and c.func.attr == "__init__" and isinstance(c.func.value, ast.Call)
+                   and call_name(c.func.value) == "super"]
+            if len(sup) != 1:
+                continue
+            base = next((b for b in repo.mro(cls)[1:] if "__init__" in b.methods), None)
+            if base is None:
+                continue
+            bp = _init_params(base.methods["__init__"])
+            own = _init_params(init)
+            c = sup[0]
+            if any(k.arg is None for k in c.keywords) or any(isinstance(a, ast.Starred) for a in c.args):
+                continue
+            passed: Dict[str, ast.AST] = {k.arg: k.value for k in c.keywords if k.arg}
+            for i, a in enumerate(c.args):
+                if i < len(bp):
+                    passed[bp[i]] = a
+            shared = [p for p in own if p in bp]
+            if not shared:
+                continue
+            n += 1
+            missing = [p for p in shared if p not in passed]
+            ck.ob("C03.15", init, c, not missing, f"{cls.name}.__init__ forwards every parameter it shares with {base.name}.__init__",
+                  detail=f"not forwarded: {missing} — {base.name} applies its own default for them" if missing else "",
+                  construct=f"{cls.name}: super().__init__ forwarding")
+    ck.floor("C03.15", n, 15, "constructors that share parameters with their base-class constructor")
+
+
+# ------------------------------------------------------------------------------------------------ C03.16
+def _head_names(ck: Check, repo: Repo) -> None:
+    """The constructor description rebuilds an architecture that accepts the current weights: a head that is built under one name and rebuilt
+    under another changes every state-dict key (obligations of C04.9, which compares build_network_head with recreate_network)."""
+    from dataclasses import replace
+    from . import c04
+    sub = Check("C04", ck.tier, ck.repo_root)
+    sub.known = []
+    sub.rule("C04.9", "shared")
+    c04._head_agreement(sub, repo)
+    ck.rule("C03.16", "a network head is rebuilt the way it was built (same builder, same name and keyword set in build_network_head and recreate_network): the state-dict "
+                      "keys of a mutated network are the ones its constructor description produces (obligations of C04.9, shared with the C04 check)")
+    taken = [replace(o, rule="C03.16") for o in sub.obs if o.rule == "C04.9"]
+    if len(taken) < 4:
+        raise AnalysisError(f"C03.16: only {len(taken)} obligations taken over from C04.9")
+    ck.obs.extend(taken)
